@@ -252,3 +252,9 @@ def workdir():
                 f.write(bytes((0xa0 + i) & 0xff for i in range(n)))
     os.chdir(d)
     return d
+
+
+def errline(e):
+    """last line of an exception's text (never fails on empty messages)"""
+    ls = str(e).splitlines()
+    return ls[-1] if ls else repr(e)
